@@ -24,7 +24,7 @@ RULE = (
     "evaluation_info present or not; histories of 1-6 calculate() calls on one EnsembleEvaluator (functions on single "
     "vectors or batches of 1-3, gradients after functions at the same point = split, gradients alone, both; a third of "
     "the histories follow optimizer-like F,G,F,G.. patterns at moving points); evaluator "
-    "variants: label-driven recording evaluator, two different garbage fillings of inactive entries, memoizing "
+    "variants: label-driven recording evaluator, two different garbage fillings of inactive entries (moderate values, or 1e160 against a moderate one), mean or stddev estimator, memoizing "
     "evaluator that returns the same EvaluatorResult object / arrays for repeated requests, evaluator that returns "
     "write-protected views of persistent buffers it refills on the next call, evaluators that return Fortran-ordered, strided or float32 arrays; x handed in as a write-protected view. Oracle: trace predicate "
     "(needed label set each once, user-domain variables, reported value == transform(returned value at that label), "
@@ -40,6 +40,7 @@ ASSUMPTIONS = [
 ]
 
 _GARBAGE = (777.25, -31.5)
+_HUGE = (1e160, -31.5)  # (one huge, one moderate: two huge values could both turn a result into NaN)
 
 
 class Memo:
@@ -170,6 +171,8 @@ def build(case: dict[str, Any], garbage: float | None, memo: bool) -> tuple[EnOp
         "samplers": [{"method": "design/fixed"}],
         "realization_filters": case["filters"],
     }
+    if case.get("estimator"):
+        cfg["function_estimators"] = [{"method": case["estimator"]}]
     if case["filters"] and case["obj_filt"] is not None:
         cfg["objectives"]["realization_filters"] = case["obj_filt"]
     if c_n:
@@ -437,8 +440,9 @@ def summarise(res: Any) -> dict[str, Any]:  # noqa: ANN401
 
 
 def run_case(case: dict[str, Any]) -> dict[str, Any]:
-    s1 = run_history(case, _GARBAGE[0], case["memo"])
-    s2 = run_history(case, _GARBAGE[1], False)
+    garbage = _HUGE if case.get("huge") else _GARBAGE  # any finite value may sit in an inactive entry
+    s1 = run_history(case, garbage[0], case["memo"])
+    s2 = run_history(case, garbage[1], False)
     if not s1["aborted"] and not s2["aborted"]:
         same = _equal(s1["outputs"], s2["outputs"])
         sig = "garbage-changes-result"
@@ -502,19 +506,25 @@ def hypothesis_shard(item: dict[str, Any]) -> Collector:
             else:
                 history.append([kind, [pts[draw(st.integers(0, 2))]]])
         tr = draw(st.sampled_from(["", "", "v", "o", "c", "voc"]))
-        return {
+        return finish({
             "n": n, "R": r_n, "P": p_n, "K": k_n, "C": c_n, "weights": weights, "filters": filters,
             "obj_filt": [draw(st.integers(-1, 0)) for _ in range(k_n)] if draw(st.booleans()) else None,
             "con_filt": [draw(st.integers(-1, 0)) for _ in range(c_n)] if c_n and draw(st.booleans()) else None,
             "slopes": [draw(num) for _ in range(r_n * (k_n + c_n) * n)], "offsets": [draw(num) for _ in range(r_n * (k_n + c_n))],
             "design": [draw(st.sampled_from([-1.0, 1.0, 0.5, 0.0])) for _ in range(r_n * p_n * n)],
+            "estimator": draw(st.sampled_from([None, None, "mean", "stddev"])) if r_n > 1 else None, "huge": draw(st.integers(0, 3)) == 0,
             "history": history, "memo": draw(st.booleans()), "readonly": draw(st.booleans()), "ro_x": draw(st.booleans()),
             "info": draw(st.booleans()), "layout": draw(st.sampled_from([None, None, "fortran", "strided", "float32"])),
             "transforms": tr, "vscale": [draw(st.sampled_from([0.5, 2.0, 4.0])) for _ in range(n)],
             "voff": [draw(st.sampled_from([0.0, 1.0])) for _ in range(n)],
             "oscale": [draw(st.sampled_from([2.0, 0.5])) for _ in range(k_n)],
             "cscale": [draw(st.sampled_from([4.0, 0.25])) for _ in range(c_n)],
-        }
+        })
+
+    def finish(case: dict[str, Any]) -> dict[str, Any]:
+        if case["layout"] == "float32":
+            case["huge"] = False  # 1e160 is not a finite float32
+        return case
 
     def body(case: dict[str, Any]) -> None:
         stats = run_case(case)
@@ -523,7 +533,8 @@ def hypothesis_shard(item: dict[str, Any]) -> Collector:
         col.case(case, nontrivial=nontrivial, classes=(
             "inactive-entries" if stats["inactive"] else "all-active", "memo-repeat" if stats["repeats"] else "no-repeat",
             f"transforms={case['transforms'] or 'none'}", "filters" if case["filters"] else "no-filters",
-            "zero-weights" if 0.0 in case["weights"] else "positive-weights", "tiny-weights" if any(0 < w < 1e-6 for w in case["weights"]) else "no-tiny-weights", *(f"op={k}" for k in sorted(kinds)),
+            "zero-weights" if 0.0 in case["weights"] else "positive-weights", f"estimator={case['estimator'] or 'default'}",
+            "huge-garbage" if case["huge"] else "moderate-garbage", "tiny-weights" if any(0 < w < 1e-6 for w in case["weights"]) else "no-tiny-weights", *(f"op={k}" for k in sorted(kinds)),
             "aborted" if stats["aborted"] else "completed", "info" if case["info"] else "no-info",
             "persistent-readonly-buffers" if case["readonly"] and not case["memo"] else "fresh-or-memo-arrays",
             "readonly-x" if case["ro_x"] else "plain-x",
